@@ -52,6 +52,22 @@ static void sq_found(const char * key, const char * replay_args, const char * fm
     fclose(f);
   }
 }
+/* wait for a forked case with a wall-clock limit; a child that does not finish is killed and reported as a hang
+   (the library installs its own SIGALRM handler, so alarm() inside the child is no watchdog).
+   returns 0 and fills *status, or -1 on timeout */
+#include <sys/wait.h>
+#include <signal.h>
+static int sq_wait_child(pid_t pid, int timeout_s, int * status) {
+  double tend = sq_now() + timeout_s;
+  for (;;) {
+    pid_t r = waitpid(pid, status, WNOHANG);
+    if (r == pid) return 0;
+    if (r < 0) { *status = 0; return 0; }
+    if (sq_now() > tend) { kill(pid, SIGKILL); waitpid(pid, status, 0); return -1; }
+    struct timespec ts = { 0, 2000000 }; nanosleep(&ts, NULL);
+  }
+}
+
 static int sq_end(const char * statsfile) {
   FILE * f = fopen(statsfile, "w");
   if (!f) { perror(statsfile); return 2; }
